@@ -195,7 +195,10 @@ func (i *input) lex() {
 					return
 				}
 				if hasEscape && c == '\\' {
-					i.readRune() // Eat escape.
+					// Eat escape. It's part of the text of a doc string.
+					if c := i.readRune(); isDocString {
+						content.WriteRune(c)
+					}
 				} else if i.match(quote) {
 					closed = true
 					break
